@@ -54,7 +54,8 @@ STR_METHODS = {"strip", "lstrip", "rstrip", "lower", "upper", "startswith", "end
 DATE_ATTRS = {"year", "month", "day", "hour", "minute", "second", "microsecond", "days", "seconds", "microseconds", "min", "max"}
 DATE_METHODS = {"replace", "total_seconds", "date", "time", "timetuple", "isoformat", "strftime", "weekday"}
 TYPES = {"tuple": tuple, "list": list, "str": str, "int": int, "float": float, "dict": dict, "set": set, "bool": bool, "datetime": _dt.datetime, "date": _dt.date,
-         "timedelta": _dt.timedelta, "type(None)": type(None)}
+         "timedelta": _dt.timedelta, "type(None)": type(None), "Number": (int, float, complex), "numbers.Number": (int, float, complex), "Real": (int, float),
+         "numbers.Real": (int, float)}
 BUILTINS = {"float": float, "int": int, "str": str, "len": len, "bool": bool, "set": set, "divmod": divmod, "abs": abs, "round": round,
             "datetime": _dt.datetime, "timedelta": _dt.timedelta, "list": list, "tuple": tuple, "dict": dict, "sorted": sorted,
             "any": any, "all": all, "min": min, "max": max, "sum": sum, "enumerate": enumerate, "zip": zip, "range": range, "reversed": reversed, "frozenset": frozenset}
@@ -291,9 +292,8 @@ class Machine:
                 key = str(norm(t_))
                 if key not in TYPES:
                     raise AnalysisError("string machine: isinstance(..., %s)" % key)
-                got.append(TYPES[key])
-            if isinstance(v, bool) and bool not in got and int in got:
-                return True
+                t2 = TYPES[key]
+                got.extend(t2 if isinstance(t2, tuple) else [t2])
             return isinstance(v, tuple(got))
         if isinstance(n, ast.Call) and isinstance(n.func, ast.Attribute):
             # a method of the modelled object: the Stub holds the function (core.Func) under the method's name
